@@ -22,3 +22,31 @@ package nfpm
 //@   ensures [C07] no-clock: implies(!old(info.MTime.IsZero()), flag("clockRead") == old(flag("clockRead")))
 //@   ensures [C07] no-env: flag("envRead") == old(flag("envRead"))
 //@   modifies [C11 C12] &info.Contents, flag("failed"), flag("clockRead")
+//
+//@ import "strconv"
+//
+//@ spec func nz(a, b string) string {
+//@     if a != "" { return a }
+//@     return b
+//@ }
+//
+//@ spec func semverCore(v string) string {
+//@     return strconv.Itoa(ufInt("semverMajor", v)) + "." + strconv.Itoa(ufInt("semverMinor", v)) + "." + strconv.Itoa(ufInt("semverPatch", v))
+//@ }
+//
+//@ func (i *Info) parseSemver()
+//@   requires i != nil
+//@   ensures [C14] split-core: implies(ufBool("semverOK", old(i.Version)), i.Version == semverCore(old(i.Version)))
+//@   ensures [C14] explicit-prerelease-wins: implies(ufBool("semverOK", old(i.Version)), i.Prerelease == nz(old(i.Prerelease), ufStr("semverPre", old(i.Version))))
+//@   ensures [C14] explicit-metadata-wins: implies(ufBool("semverOK", old(i.Version)), i.VersionMetadata == nz(old(i.VersionMetadata), ufStr("semverMeta", old(i.Version))))
+//@   ensures [C14] unparsable-verbatim: implies(!ufBool("semverOK", old(i.Version)), i.Version == old(i.Version) && i.Prerelease == old(i.Prerelease) && i.VersionMetadata == old(i.VersionMetadata))
+//@   modifies [C11 C12] &i.Version, &i.Prerelease, &i.VersionMetadata
+//
+//@ func WithDefaults(info *Info) (result *Info)
+//@   requires info != nil
+//@   ensures [C14] schema-none-verbatim: implies(old(info.VersionSchema) == "none" && old(info.Version) != "", info.Version == old(info.Version) && info.Prerelease == old(info.Prerelease) && info.VersionMetadata == old(info.VersionMetadata))
+//@   ensures [C14] semver-by-default: implies(old(info.VersionSchema) != "none" && old(info.Version) != "" && ufBool("semverOK", old(info.Version)), info.Version == semverCore(old(info.Version)) && info.Prerelease == nz(old(info.Prerelease), ufStr("semverPre", old(info.Version))) && info.VersionMetadata == nz(old(info.VersionMetadata), ufStr("semverMeta", old(info.Version))))
+//@   ensures [C14] unparsable-verbatim: implies(old(info.Version) != "" && !ufBool("semverOK", old(info.Version)), info.Version == old(info.Version) && info.Prerelease == old(info.Prerelease))
+//@   ensures [C07] mtime-kept: implies(!old(info.MTime.IsZero()), info.MTime == old(info.MTime) && flag("envRead") == old(flag("envRead")))
+//@   ensures [C11] same-object: result == info
+//@   modifies [C11 C12] &info.Platform, &info.Description, &info.Arch, &info.Version, &info.Umask, &info.MTime, &info.Prerelease, &info.VersionMetadata, flag("envRead")
